@@ -315,3 +315,8 @@ for _p in ("C06", "C20"):
     PROPS[_p]["prop_files"] = ["props/%s.v" % _p, "props/%si.v" % _p]
     PROPS[_p]["prop_file"] = "props/%s.v" % _p
     PROPS[_p]["files"] = list(dict.fromkeys(PROPS[_p]["files"] + ["proofs/FlagProofs.v", "props/%s.v" % _p]))
+
+for _p in ("C07", "C17"):
+    PROPS[_p]["files"] = list(dict.fromkeys(PROPS[_p]["files"] + ["proofs/EngineProofs.v", "proofs/BisimProofs.v", "props/%s.v" % _p]))
+PROPS["C17"]["prop_files"] = ["props/C17.v", "props/C17i.v"]
+PROPS["C17"]["prop_file"] = "props/C17.v"
